@@ -81,7 +81,7 @@ Shapes ==
   \cup { Shape(k, "", {}, c) : k \in ({"if", "whl"} \cap Kinds), c \in Conds }
   \cup { Shape(k, t, {}, "") : k \in ({"for"} \cap Kinds), t \in ForTargets }
   \cup { Shape(k, "", {}, "") : k \in ({"else", "brk", "cnt", "rtn", "try", "exc"} \cap Kinds) }
-  \cup { Shape(k, t, r, "") : k \in ({"cmp"} \cap Kinds), t \in Vars, r \in ReadSets }
+  \cup { sh \in { Shape(k, t, r, "") : k \in ({"cmp"} \cap Kinds), t \in Vars, r \in ReadSets } : sh.t \notin sh.r }
   \cup { Shape(k, t, r, c) : k \in ({"ifa", "wha"} \cap Kinds), t \in Vars, r \in {{}, Vars}, c \in Conds }
 
 MkLine(sh, n, d) == [n |-> n, d |-> d, k |-> sh.k, t |-> sh.t, r |-> sh.r, c |-> sh.c]
